@@ -316,9 +316,26 @@ def check_read(c, ev, res, spec_c, order):
     def P(num, L):
         return float(num) if flt else exact_prob(num, L)
 
-    def state(x):
-        return lw.State(list(x))
+    made = []
 
+    def state(x):
+        st = lw.State(list(x))
+        made.append((st, list(x)))
+        return st
+
+    try:
+        out += _check_read(c, ev, res, spec_c, order, name, a, ins, expect_ok, flt, P, state)
+    finally:
+        pass
+    for st, orig in made:
+        if st.s != orig or len(st) != len(orig):
+            out.append(("read_changed_state", "%s changed a State object passed in: %s -> %s" % (name, orig, st.s)))
+    return out
+
+
+def _check_read(c, ev, res, spec_c, order, name, a, ins, expect_ok, flt, P, state):
+    from lightworks import emulator as emu
+    out = []
     try:
         if name == "simulate":
             r = emu.Simulator(c).simulate(state(ins))
